@@ -468,9 +468,9 @@ Proof.
   - unfold nparts. destruct (st_parts t); cbn; lia.
 Qed.
 
-(* no token under the cursor (or no mapping at all): the zero Location *)
+(* no token under the cursor: the position of the last token (the end of input); no mapping at all: the zero Location *)
 Theorem error_beyond_tokens : forall own ts cursor, flat_index ts (length ts) <= cursor ->
-  current_location (Some (conv_positions own 0 ts)) cursor = (0, 0).
+  current_location (Some (conv_positions own 0 ts)) cursor = last_start (conv_positions own 0 ts).
 Proof.
   intros own ts cursor H. unfold current_location.
   replace (nth_error (conv_positions own 0 ts) cursor) with (@None (nat * (loc * loc))); [reflexivity|].
